@@ -9,6 +9,7 @@ mod c02;
 mod c03;
 mod c04;
 mod c05;
+mod c06;
 mod c19;
 mod prog;
 
@@ -107,6 +108,7 @@ fn main() {
         "c03" => c03::run(&ctx),
         "c04" => c04::run(&ctx),
         "c05" => c05::run(&ctx),
+        "c06" => c06::run(&ctx),
         "c19" => c19::run(&ctx),
         "c19dump" => c19::dump(&ctx),
         _ => {
